@@ -163,7 +163,14 @@ class Context:
         elif isinstance(typ, ast.FloatType):
             if not isinstance(value, (int, float)):
                 raise SemanticError(f"Cannot convert {value!r} to {typ}", loc)
-            return float(value)
+            value = float(value)
+            if typ.bits == 32:
+                # Round to single precision:
+                try:
+                    value = struct.unpack("f", struct.pack("f", value))[0]
+                except OverflowError:
+                    value = math.copysign(math.inf, value)
+            return value
         else:
             return value
 
